@@ -118,8 +118,11 @@ class JinjaIndex:
         init = proj.methods.get("__init__")
         if init is None:
             raise AnalysisError("Project.__init__ not found")
-        for n in ast.walk(init.node):
-            if isinstance(n, ast.Call) and (dotted(n.func) or "").endswith("Environment"):
+        # the construction may sit in __init__ or in a helper of its module (a factory function): look at __init__ first, then at
+        # every function of the module that defines Project
+        places = [init] + [f for f in self.ix.all_functions if f.module is proj.module and f is not init]
+        for n in [x for f in places for x in ast.walk(f.node)]:
+            if isinstance(n, ast.Call) and (dotted(n.func) or "").rsplit(".", 1)[-1] == "Environment":
                 opts: dict[str, Any] = {}
                 for kw in n.keywords:
                     if kw.arg in ("trim_blocks", "lstrip_blocks", "keep_trailing_newline", "extensions", "autoescape"):
@@ -128,7 +131,7 @@ class JinjaIndex:
                         except Exception as e:  # noqa: BLE001
                             raise AnalysisError(f"Environment option {kw.arg} is not a literal") from e
                 return opts
-        raise AnalysisError("jinja2 Environment construction not found in Project.__init__")
+        raise AnalysisError("jinja2 Environment construction not found in the module that defines Project")
 
 
 def apply_facts(labels: frozenset[str], facts: frozenset[str]) -> frozenset[str]:
@@ -240,7 +243,9 @@ class JinjaInterp:
         py, ix = self.py, self.ix
         proj = ix.cls("Project")
         self.globals.clear()
-        for f in proj.methods.values():
+        # Project's methods and the module-level helpers next to it (an environment factory, a writer helper)
+        bridge_funcs = list(proj.methods.values()) + [g for g in ix.all_functions if g.module is proj.module and g.cls is None and g.parent is None]
+        for f in bridge_funcs:
             saved = (py.cur, py.cur_mod)
             py.cur, py.cur_mod = f, f.module
             try:
@@ -270,11 +275,21 @@ class JinjaInterp:
                     d_ = dotted(n.func) or ""
                     if n.func.attr == "render" and isinstance(n.func.value, ast.Name) and n.func.value.id in tpl_vars:
                         pass  # per-render variables come from the interpreter's render log (narrowed at the call site)
-                    elif d_.endswith("env.globals.update"):
+                    elif d_.endswith(".globals.update"):
                         for k in n.keywords:
                             if k.arg:
                                 self.globals[k.arg] = join(self.globals.get(k.arg), py.ev(k.value, final))
-                    elif d_.endswith("env.filters.update"):
+                        # update({...}) / update(d) with d a local bound to a dict literal
+                        from .astutil import Locals as _Locals
+
+                        for a in n.args:
+                            dicts = [a] if isinstance(a, ast.Dict) else [v for v in _Locals(f.node).values_of(a.id)
+                                                                         if isinstance(v, ast.Dict)] if isinstance(a, ast.Name) else []
+                            for dct in dicts:
+                                for k_, v_ in zip(dct.keys, dct.values):
+                                    if isinstance(k_, ast.Constant) and isinstance(k_.value, str):
+                                        self.globals[k_.value] = join(self.globals.get(k_.value), py.ev(v_, final))
+                    elif d_.endswith(".filters.update"):
                         for a in n.args:
                             r = ix.resolve(f.module, dotted(a) or "")
                             if r and r[0] == "var":
